@@ -1,4 +1,6 @@
 import NunavutVerif.Model.Deps
+import NunavutVerif.Model.DepsOpts
+import NunavutVerif.Model.Names
 import NunavutVerif.Proto
 /-!
 Driver for the C06 correspondence.  One request per line, tokens separated by single spaces.
@@ -20,6 +22,18 @@ Requests
 * `guard <mac> <major> <minor> <suffix>` → string
 * `nsopen <names joined by |>` / `nsclose …` → string
 * `balanced <text>`                  → depth after the text with `//` comments removed, or `neg`
+* `cliopts <std|-> <omit> <useStd> <preferSys>` → the options `O` the C++ target derives from `--language-standard <std>` (`-` = not
+                                       given) and the shipped `options` / `defaults`, or `err:<kind>`
+* `stdver <std string>`              → `Language.standard_version` for that `std` option, or `err:badStdNumber`
+* `cref <enable> <table> N`          → C `full_reference_name` of the type
+* `cppref|cppmacro <enable> <table> N` → C++ `full_reference_name` / `full_macro_name`
+* `cdefs <ovr> M <ref> <fixedPort> K` | `cdefs <ovr> S <ref> <fixedPort> <reqRef> K <respRef> K`
+                                     → the `#define`d names of the C header in file order, joined by `|`;
+                                       composite names `K`: `<isUnion> <fields> <consts>`, fields `name:s|a|v` joined by `;`, consts joined by `;`, `!` = none
+* `snake <text>`                     → `filter_to_snake_case(text)`
+* `guardname <enable> <table> <full_name> <major> <minor> <suffix>` → the include guard computed from the dotted full name:
+                                       `macrofy` (model of `to_snake_case`, upper case, `filter_id(., "macro")` from the table), version, suffix
+* `cclear K`                         → `1` if no constant of the composite is named like a generated macro suffix, else `0`
 -/
 open NunavutVerif NunavutVerif.Deps NunavutVerif.Proto
 
@@ -155,6 +169,27 @@ def showDeps (d : Deps) : String :=
   showList ";" "!" (d.names.map showName) ++ "|" ++ b01 d.usesInteger ++ b01 d.usesFloat ++ b01 d.usesVla ++ b01 d.usesArray
     ++ b01 d.usesBoolStaticArray ++ b01 d.usesBool ++ b01 d.usesPrimStaticArray ++ b01 d.usesUnion
 
+def optErrName : OptErr → String
+  | .config _ => "err:config" | .badStdNumber => "err:badStdNumber" | .supportPath _ => "err:supportPath"
+
+def showOpts (o : Opts) : String :=
+  b01 o.omitSer ++ "," ++ b01 o.useStd ++ "," ++ toString o.std ++ "," ++ b01 o.allocCtor ++ "," ++ b01 o.preferSys ++ " "
+    ++ encodeStr o.allocInc ++ " " ++ encodeStr o.vlaInc ++ " " ++ showList "|" "!" (o.support.map encodeStr)
+
+def parseKind (s : String) : Option Names.FKind :=
+  if s = "s" then some .scalar else if s = "a" then some .fixedArr else if s = "v" then some .varArr else none
+
+def parseField (p : String) : Option (Str × Names.FKind) :=
+  match p.splitOn ":" with
+  | [n, k] => do some ((← decodeStr n), (← parseKind k))
+  | _ => none
+
+def parseCompNames (u fs cs : String) : Option Names.CompNames := do
+  let u ← bit u
+  let fields ← if fs = "!" then some [] else (fs.splitOn ";").mapM parseField
+  let consts ← if cs = "!" then some [] else (cs.splitOn ";").mapM decodeStr
+  some ⟨fields, consts, u⟩
+
 def answer (line : String) : String :=
   match line.splitOn " " with
   | "deps" :: ver :: mode :: top =>
@@ -218,6 +253,49 @@ def answer (line : String) : String :=
       | some d => toString d
       | none => "neg"
     | none => "bad-op"
+  | ["cliopts", std, om, us, ps] =>
+    match bit om, bit us, bit ps with
+    | some om, some us, some ps =>
+      match cliOpts (if std = "-" then none else some std) om us ps with
+      | .ok o => showOpts o
+      | .error e => optErrName e
+    | _, _, _ => "bad-op"
+  | ["stdver", std] =>
+    match decodeStr std with
+    | some s => match standardVersion s with
+      | .ok v => toString v
+      | .error e => optErrName e
+    | none => "bad-op"
+  | ["snake", text] =>
+    match decodeStr text with
+    | some t => encodeStr (Names.toSnake t)
+    | none => "bad-op"
+  | ["guardname", en, tbl, full, ma, mi, suf] =>
+    match bit en, parseTable tbl, decodeStr full, ma.toNat?, mi.toNat?, decodeStr suf with
+    | some en, some tbl, some full, some ma, some mi, some suf =>
+      encodeStr (includeGuard (Names.macrofy (lookupStrop tbl) en full) ma mi suf)
+    | _, _, _, _, _, _ => "bad-op"
+  | ["cclear", u, fs, cs] =>
+    match parseCompNames u fs cs with
+    | some c => b01 (Names.constsClear c)
+    | none => "bad-op"
+  | [op, en, tbl, n] =>
+    match bit en, parseTable tbl, parseName n with
+    | some en, some tbl, some t =>
+      if op = "cref" then encodeStr (Names.cFullRef (lookupStrop tbl) en t)
+      else if op = "cppref" then encodeStr (Names.cppFullRef (lookupStrop tbl) en t)
+      else if op = "cppmacro" then encodeStr (Names.cppFullMacro (lookupStrop tbl) en t)
+      else "bad-op"
+    | _, _, _ => "bad-op"
+  | ["cdefs", ovr, "M", ref, fp, u, fs, cs] =>
+    match bit ovr, decodeStr ref, bit fp, parseCompNames u fs cs with
+    | some ovr, some ref, some fp, some c => showList "|" "!" ((Names.cDefinesMsg ovr ref fp c).map encodeStr)
+    | _, _, _, _ => "bad-op"
+  | ["cdefs", ovr, "S", ref, fp, r1, u1, fs1, cs1, r2, u2, fs2, cs2] =>
+    match bit ovr, decodeStr ref, bit fp, decodeStr r1, parseCompNames u1 fs1 cs1, decodeStr r2, parseCompNames u2 fs2 cs2 with
+    | some ovr, some ref, some fp, some r1, some c1, some r2, some c2 =>
+      showList "|" "!" ((Names.cDefinesSvc ovr ref fp r1 c1 r2 c2).map encodeStr)
+    | _, _, _, _, _, _, _ => "bad-op"
   | _ => "bad-op"
 
 def main : IO Unit := serve answer
